@@ -207,6 +207,32 @@ def chk_reverb_initialised(F):
     return True, 'init => state = Initialized'
 
 
+def chk_delay_chunked_by_line(F):
+    """Delay::process walks its input in chunks of `self.buffer.len()` (the delay line): that is what bounds
+    `self.buffer[..input.len()]`; the only other ranges into the delay line are `buffer.len() - input.len()..` and
+    `copy_within(input.len().., 0)` on the line itself."""
+    from .paths import describe
+    from .facts import callee_path
+    b = F.body('<effect::delay::Delay as effect::Effect>::process')
+    if b is None:
+        return False, 'Delay::process not found'
+    cm = [(bb, t) for bb, t in b.calls() if (callee_path(t) or '').endswith('core::slice::<impl [T]>::chunks_mut')]
+    if len(cm) != 1 or describe(b, cm[0][1]['args'][1], depth=6, at=cm[0][0]) != 'std::vec::Vec::<T, A>::len(&(*self).buffer)':
+        return False, 'the input is not chunked by self.buffer.len() (%s)' % [describe(b, t['args'][1], depth=6, at=bb)[:60] for bb, t in cm]
+    for bb, t in b.calls():
+        cp = callee_path(t) or ''
+        if cp.split('::')[-1] in ('index', 'index_mut') and 'std::vec::Vec' in cp and describe(b, t['args'][0], depth=4, at=bb).endswith('.buffer'):
+            d = describe(b, t['args'][1], depth=8, at=bb)
+            ok = (d.startswith(('std::ops::RangeTo::RangeTo(core::slice::<impl [T]>::len(', 'std::ops::Range::Range(0, core::slice::<impl [T]>::len(')) and 'ChunksMut' in d) or \
+                 (d.startswith('std::ops::RangeFrom::RangeFrom(Sub(std::vec::Vec::<T, A>::len(&(*self).buffer), core::slice::<impl [T]>::len(') and 'ChunksMut' in d)
+            if not ok:
+                return False, 'the delay line is indexed with %s' % d[:100]
+        if cp.endswith('::copy_within'):
+            if '.buffer' not in describe(b, t['args'][0], depth=6, at=bb):
+                return False, 'copy_within is applied to %s, not to the delay line' % describe(b, t['args'][0], depth=6, at=bb)[:60]
+    return True, 'chunks_mut(buffer.len()); ranges bounded by the chunk and the line'
+
+
 def chk_scratch_sized_ibs(F):
     """Every scratch buffer is allocated with exactly internal_buffer_size frames (and Delay's only in init)."""
     from .props.c02 import scratch_allocations, SIZE_RE
@@ -224,6 +250,7 @@ CHECKS = {
     'delay_line_nonempty': chk_delay_line_nonempty,
     'reverb_filters_nonempty': chk_reverb_filters_nonempty,
     'reverb_initialised': chk_reverb_initialised,
+    'delay_chunked_by_line': chk_delay_chunked_by_line,
     'loop_region_ordered': chk_loop_region_ordered,
 }
 
@@ -249,6 +276,13 @@ def load_table():
 
 
 def run_check(F, name, cache):
+    """`name` may list several preconditions separated by '+': all must hold."""
+    if '+' in name:
+        for part in name.split('+'):
+            good, msg = run_check(F, part, cache)
+            if not good:
+                return False, '%s: %s' % (part, msg)
+        return True, 'all of ' + name
     if name not in cache:
         fn = CHECKS.get(name)
         cache[name] = fn(F) if fn else (False, 'unknown check')
